@@ -96,8 +96,12 @@ func runScens(prop string, scens []Scen) *ShardResult {
 	}
 	seenKeys := map[string]bool{}
 	next := -1
+	batch := len(scens) / (*flagShards * 24)
+	if batch < 1 {
+		batch = 1
+	}
 	if *flagQueue != "" && *flagOnly < 0 {
-		next = claim(*flagQueue)
+		next = claim(*flagQueue) * batch
 	}
 	for i, sc := range scens {
 		if *flagOnly >= 0 {
@@ -105,15 +109,13 @@ func runScens(prop string, scens []Scen) *ShardResult {
 				continue
 			}
 		} else if *flagQueue != "" {
-			if i != next {
+			if i < next || i >= next+batch {
 				continue
 			}
 		} else if i%*flagShards != *flagShard {
 			continue
 		}
-		if *flagQueue != "" && *flagOnly < 0 {
-			next = -2 // claim the following one after this scenario is done (see end of loop body)
-		}
+		lastOfBatch := *flagQueue != "" && *flagOnly < 0 && (i == next+batch-1 || i == len(scens)-1)
 		if !deadline.IsZero() && time.Now().After(deadline) {
 			res.Capped = true
 			break
@@ -150,7 +152,7 @@ func runScens(prop string, scens []Scen) *ShardResult {
 					res.Races[r.Key()] = r.Threads
 				}
 			}
-			if first {
+			if first && (sc.Bound > 0 || i%16 == 0) {
 				first = false
 				// determinism self-check: the default execution replayed must give the same observation
 				y := vsched.Run(append([]int(nil), x.Choices...), vsched.Config{}, sc.Body)
@@ -187,8 +189,8 @@ func runScens(prop string, scens []Scen) *ShardResult {
 			var obs0 string
 			for k := 0; k < 5; k++ {
 				y := vsched.Run(f.choices, vsched.Config{Trace: k == 0}, sc.Body)
-				m, _ := sc.Check(y)
-				o := sc.Obs(y) + "|" + m
+				m, mk := sc.Check(y)
+				o := sc.Obs(y) + "|" + mk
 				if k == 0 {
 					obs0 = o
 					v.Trace = y.Trace
@@ -222,8 +224,8 @@ func runScens(prop string, scens []Scen) *ShardResult {
 		if res.Infra != "" {
 			break
 		}
-		if next == -2 {
-			next = claim(*flagQueue)
+		if lastOfBatch {
+			next = claim(*flagQueue) * batch
 		}
 	}
 	res.WallS = time.Since(t0).Seconds()
